@@ -232,6 +232,20 @@ class SymNp:
         return np.prod(x, *a, **k)
 
     @staticmethod
+    def max(x, *a, **k):
+        if isinstance(x, (tuple, list)) and any(isinstance(v, (SymInt, SymReal)) for v in x) and not a and not k:
+            return sym_max(*x)
+        return np.max(x, *a, **k)
+
+    @staticmethod
+    def min(x, *a, **k):
+        if isinstance(x, (tuple, list)) and any(isinstance(v, (SymInt, SymReal)) for v in x) and not a and not k:
+            return sym_min(*x)
+        return np.min(x, *a, **k)
+
+    amax, amin = max, min
+
+    @staticmethod
     def cumsum(x, *a, **k):
         if isinstance(x, (tuple, list)) and any(isinstance(v, (SymInt, SymReal)) for v in x) and not a and not k:
             out, s = [], 0
@@ -634,7 +648,7 @@ class _ModView:
 
 
 class World:
-    def __init__(self, modules, symbolic=True, extra=None, extra_by_module=None, nodes=False, desugar=()):
+    def __init__(self, modules, symbolic=True, extra=None, extra_by_module=None, nodes=False, desugar=(), clone_classes=()):
         """modules: module names whose functions are cloned.  extra: names shadowed in every
         cloned namespace (stubs/recorders) -- also seen by function-local imports.
         extra_by_module: {module: {name: obj}}.  nodes: expression classes resolve to
@@ -697,6 +711,19 @@ class World:
                     ns["hash_buffer_hex"] = sym_hash_hex
             ns.update(self.extra)
             ns.update(self.extra_by_module.get(n, {}))
+        # ordinary (non-expression) classes whose methods must run the cloned code, e.g. the Array collection
+        self.cloned_classes = {}
+        if clone_classes:
+            from .nodes import clone_class
+
+            for modname, cname in clone_classes:
+                real = getattr(importlib.import_module(modname), cname)
+                sub = clone_class(self, real)
+                self.cloned_classes[real] = sub
+                for ns in self.ns.values():
+                    for k, v in list(ns.items()):
+                        if v is real:
+                            ns[k] = sub
 
     # -- cloning
     def _clone(self, v):
@@ -731,6 +758,9 @@ class World:
                 return _ModView(self, name)
             mod = builtins.__import__(name, globals, locals, fromlist, level)
             over = {k: self.extra[k] for k in fromlist if k in self.extra}
+            for k in fromlist:
+                if k not in over and isinstance(getattr(mod, k, None), type) and getattr(mod, k) in getattr(self, "cloned_classes", {}):
+                    over[k] = self.cloned_classes[getattr(mod, k)]
             if self.space is not None:
                 from .nodes import sym_tokenize
 
